@@ -13,7 +13,7 @@ from .common import coq_bool, coq_list, coq_str
 
 PID = "C14"
 PROPS_FILE = "props/C14.v"
-MODEL_TARGETS = ["model/Watch.vo"]
+MODEL_TARGETS = ["model/Watch.vo", "model/WatchBuild.vo", "model/WatchSet.vo"]
 RULE = ("fold: random graph states on a real Workflow (attached files in every state, detached nodes, nglob rows "
         "with partly stale matches) and random change-item sequences (UPDATED/DELETED/DELETED_PARENT, with and "
         "without during_build) through the real Watcher.record_change versus model fold_changes over "
@@ -53,6 +53,8 @@ SIG_D10 = "watch-vs-restart:nglob:matched-directory-change-not-queued"
 SIG_D10D = "watch-vs-restart:nglob:file-in-new-unwatched-directory-not-queued"
 SIG_STALE = "watch-vs-restart:nglob:updated-path-under-removed-directory-kept"
 SIG_D15 = "watch-commit:ConsistencyError:EXTERNAL-rehash-of-detached-node"
+SIG_W1 = "watch-vs-restart:watchset:stale-watch-of-subdirectory-moved-with-parent"
+SIG_W2 = "watch-vs-restart:watchset:late-IGNORED-clobbers-reinstalled-watch"
 
 HEADER = ("From Coq Require Import List NArith Bool.\nImport ListNotations.\n"
           "From SV Require Import lib.Bytes gen.GenWatch model.Watch.\nOpen Scope N_scope.\n"
@@ -653,7 +655,202 @@ def _run_histories(ctx, nrandom, do_model=True):
     return checks, descr
 
 
+# ---------------------------------------------------------------------------------------------
+# watch-set bookkeeping: several watch phases, operations in batches (model/WatchSet.v)
+# ---------------------------------------------------------------------------------------------
+
+_S1 = {"dirs": ["d1/sub"], "static": {"d1/sub/s2.txt": "S"},
+       "steps": [{"cmd": "s1", "inp": ["d1/sub/s2.txt"], "out": {"o1.txt": "O"}}]}
+_S2 = {"dirs": ["d1"], "static": {"d1/s1.txt": "S"},
+       "steps": [{"cmd": "s1", "inp": ["d1/s1.txt"], "out": {"o1.txt": "O"}}]}
+# name: (project, phases); phase = list of batches; batch = operations applied before the wrapper runs;
+# after every phase but the last one the real watch phase is committed (a rebuild), the last one is compared
+PHASED = {
+    "W1-stale-subdirectory-watch": (_S1, [[[["mv", "d1", "d9"]], [["mkdir", "d1"]], [["mkdir", "d1/sub"]],
+                                           [["write", "d1/sub/s2.txt", "S"]]],
+                                          [[["write", "d1/sub/s2.txt", "NEW"]]]]),
+    "W2-late-IGNORED": (_S2, [[[["mv", "d1", "d9"], ["mkdir", "d1"], ["write", "d1/s1.txt", "S"]]],
+                              [[["mv", "d1", "d8"]]]]),
+    # the same operations with the wrapper keeping up: must agree
+    "W2-slow": (_S2, [[[["mv", "d1", "d9"]], [["mkdir", "d1"]], [["write", "d1/s1.txt", "S"]]], [[["mv", "d1", "d8"]]]]),
+    "two-phases-plain": (_S1, [[[["write", "d1/sub/s2.txt", "T"]]], [[["rmtree", "d1/sub"]], [["mkdir", "d1/sub"]],
+                                                                      [["write", "d1/sub/s2.txt", "U"]]]]),
+}
+PHASED_EXPECT = {"W1-stale-subdirectory-watch": SIG_W1, "W2-late-IGNORED": SIG_W2}
+
+
+async def _phased_history(spec, phases):
+    res = {"phases": [], "error": None}
+    with tempfile.TemporaryDirectory() as tmp:
+        root = os.path.join(tmp, "proj")
+        os.mkdir(root)
+        with contextlib.chdir(root):
+            dq = asyncio.Queue()
+            with D.open_stack_db(os.path.join(tmp, "a.db")) as db:
+                st = await D.Stack(db, dq).init()
+                await D.build_project(st, spec)
+                async with D.wrapper_ctx(dq) as w:
+                    await D.settle_dir_queue(w)
+                    await D.settle_real(w)
+                    for k, phase in enumerate(phases):
+                        items = []
+                        for batch in phase:
+                            for op in batch:
+                                D.apply_op(op)
+                            items += await D.settle_real(w)
+                        res["phases"].append({"batches": phase, "items": items, "watches": D.watches_dump(w),
+                                              "kernel": D.kernel_labels(w)})
+                        if k == len(phases) - 1:
+                            D.backup_db(db, os.path.join(tmp, "b.db"))
+                        try:
+                            await D.watch_commit(st, items=items)
+                        except Exception as e:  # noqa: BLE001
+                            res["error"] = f"{type(e).__name__}: {e}"
+                            break
+                    res["a"] = await D.dump_graph(st)
+            if res["error"] is None:
+                with D.open_stack_db(os.path.join(tmp, "b.db")) as db2:
+                    st2 = await D.Stack(db2, None).init()
+                    await D.startup_rescan(st2)
+                    res["b"] = await D.dump_graph(st2)
+    res["diff"] = D.diff_dumps(res["a"], res["b"]) if res["error"] is None else [("error", "", res["error"], None)]
+    return res
+
+
+def _run_phased(ctx):
+    for name, (spec, phases) in PHASED.items():
+        try:
+            res = D.run(_phased_history(spec, phases), timeout=120)
+        except D.InotifyUnavailable:
+            ctx.count("histories_skipped_no_inotify_instance")
+            continue
+        ctx.case(("phased", name), nontrivial=any(ph["items"] for ph in res["phases"]))
+        ctx.count("phased_histories")
+        if name in PHASED_EXPECT:
+            ctx.stats.setdefault("witness_replays", {})[name] = "disagrees" if res["diff"] else "agrees"
+        if not res["diff"]:
+            continue
+        sig = PHASED_EXPECT.get(name, "watch-vs-restart:phased:other")
+        last = res["phases"][-1]
+        ctx.add_failure("oracle", f"rebuild-vs-restart:{name}", sig,
+                        f"{name}: after the phases {phases!r} (operations of one inner list applied before the watcher "
+                        f"ran; a rebuild after every phase but the last) the last watch phase queued {last['items']!r} "
+                        f"with watches {last['watches']!r} / kernel watches {last['kernel']!r}; the watch-phase commit "
+                        f"and a restart on a copy of the same database and tree disagree: {res['diff']!r}",
+                        witness={"case": name, "phased": True, "project": spec, "phases": phases, "diff": res["diff"]})
+
+
+WS_DIRS = ["d1", "d1/sub", "d2", "d9", "d9/sub"]
+WS_SPEC = {"dirs": ["d1/sub", "d2"], "static": {"d1/m.txt": None, "d1/sub/m.txt": None, "d2/m.txt": None}}
+WS_NAMED = {
+    "W1": [[["mv", "d1", "d9"]], [["mkdir", "d1"]], [["mkdir", "d1/sub"]]],
+    "W2": [[["mv", "d2", "d9"], ["mkdir", "d2"]], [["mv", "d2", "d8"]]],
+    "W2-slow": [[["mv", "d2", "d9"]], [["mkdir", "d2"]], [["mv", "d2", "d8"]]],
+    "rmdir-mkdir": [[["rmdir", "d2"]], [["mkdir", "d2"]], [["rmdir", "d1/sub"], ["mkdir", "d1/sub"]]],
+    "back-and-forth": [[["mv", "d1", "d9"], ["mv", "d9", "d1"]], [["mv", "d1/sub", "d2/sub"]]],
+}
+
+
+async def _watchset_case(batches):
+    """Directory operations only (the project's directories hold no files, its static files are MISSING):
+    the real AsyncInotifyWrapper on real inotify versus model/WatchSet.v run_batches."""
+    with tempfile.TemporaryDirectory() as tmp:
+        root = os.path.join(tmp, "proj")
+        os.mkdir(root)
+        with contextlib.chdir(root):
+            dq = asyncio.Queue()
+            with D.open_stack_db(":memory:") as db:
+                st = await D.Stack(db, dq).init()
+                await D.build_project(st, WS_SPEC)
+                os.remove("plan.py")
+                async with D.wrapper_ctx(dq) as w:
+                    await D.settle_dir_queue(w)
+                    await D.settle_real(w)
+                    dirs0 = sorted(p.rstrip("/") for p, c in D.snapshot_tree(".").items() if c is None)
+                    w0 = D.watches_dump(w)
+                    k0 = D.kernel_labels(w)
+                    items, applied = [], []
+                    for batch in batches:
+                        done = [op for op in batch if D.apply_op(op)]
+                        applied.append(done)
+                        items += await D.settle_real(w)
+                    return {"dirs0": dirs0, "w0": w0, "k0": k0, "batches": applied, "items": items,
+                            "w1": D.watches_dump(w), "k1": D.kernel_labels(w),
+                            "dirs1": sorted(p.rstrip("/") for p, c in D.snapshot_tree(".").items() if c is None)}
+
+
+def _watchset_term(r):
+    ino = {p: i + 1 for i, p in enumerate(r["dirs0"])}
+    ino["."] = 0
+    if sorted(r["k0"]) != sorted(p for p, v in r["w0"].items() if v):
+        return None
+    dirs = coq_list([f"({i}, {coq_str(p)})" for p, i in sorted(ino.items()) if p != "."])
+    kw = coq_list([f"({ino[p]}, {coq_str(p)})" for p in r["k0"]])
+    w0 = coq_list([f"({coq_str(p)}, {coq_bool(v)})" for p, v in sorted(r["w0"].items())])
+    w1 = coq_list([f"({coq_str(p)}, {coq_bool(v)})" for p, v in sorted(r["w1"].items())])
+
+    def cop(op):
+        if op[0] == "mkdir":
+            return f"OMkdir {coq_str(op[1])}"
+        if op[0] == "rmdir":
+            return f"ORmdir {coq_str(op[1])}"
+        return f"OMove {coq_str(op[1])} {coq_str(op[2])}"
+    bs = coq_list([coq_list([cop(op) for op in b]) for b in r["batches"]])
+    items = coq_list([_coq_item(k, p, False) for k, p in r["items"]])
+    return (f"let s := run_batches (mk_sys {dirs} {len(ino)} {kw} [] {w0} []) {bs} in "
+            f"mseteq (map wkey (s_w s)) (map wkey {w1}) && mseteq (map snd (s_kw s)) {coq_list([coq_str(p) for p in r['k1']])} "
+            f"&& mseteq (map ikey (s_items s)) (map ikey {items}) "
+            f"&& mseteq (map snd (s_dirs s)) {coq_list([coq_str(p) for p in r['dirs1']])}")
+
+
+def _watchset_cases(ctx, nrandom):
+    rng = ctx.rng
+    cases = list(WS_NAMED.items())
+    for k in range(nrandom):
+        bs = []
+        for _ in range(rng.randint(1, 4)):
+            b = []
+            for _ in range(rng.choice([1, 1, 2, 3])):
+                r = rng.random()
+                if r < 0.4:
+                    b.append(["mkdir", rng.choice(WS_DIRS)])
+                elif r < 0.65:
+                    b.append(["rmdir", rng.choice(WS_DIRS)])
+                else:
+                    b.append(["mv", rng.choice(WS_DIRS), rng.choice(WS_DIRS)])
+            bs.append(b)
+        cases.append((f"ws-random-{k}", bs))
+    checks, descr = [], []
+    for name, bs in cases:
+        try:
+            r = D.run(_watchset_case(bs), timeout=120)
+        except D.InotifyUnavailable:
+            ctx.count("histories_skipped_no_inotify_instance")
+            continue
+        term = _watchset_term(r)
+        if term is None:
+            continue
+        checks.append(term)
+        descr.append((name, r))
+        stale = sorted(p for p, v in r["w1"].items() if v and p != "." and p not in r["dirs1"])
+        clob = sorted(p for p in r["k1"] if not r["w1"].get(p, False))
+        ctx.case(("watchset", repr(r["batches"])), nontrivial=any(r["batches"]))
+        ctx.count("watchset_cases")
+        if stale:
+            ctx.count("watchset_installed_entry_for_missing_directory")
+        if clob:
+            ctx.count("watchset_kernel_watch_recorded_as_pending")
+    return checks, descr
+
+
 def correspondence(ctx):
+    ws_checks, ws_descr = _watchset_cases(ctx, ctx.scale(12, 150))
+    bad = common.run_cases(ctx, "watchset", HEADER + "From SV Require Import model.WatchSet.\n", ws_checks, chunk=100)
+    ctx.traces_validated += len(ws_checks) - len(bad)
+    for i in bad[:2]:
+        ctx.add_failure("correspondence", "watchset", "watchset:model-vs-real-wrapper",
+                        f"real AsyncInotifyWrapper on real inotify and model/WatchSet.v run_batches disagree on "
+                        f"{ws_descr[i][0]}: {ws_descr[i][1]!r}", witness={"case": ws_descr[i][0], **ws_descr[i][1]})
     checks, descr = D.run(_fold_cases(ctx, ctx.scale(150, 1500)), timeout=900)
     bad = common.run_cases(ctx, "fold", HEADER, checks, chunk=100)
     ctx.traces_validated += len(checks) - len(bad)
@@ -666,6 +863,7 @@ def correspondence(ctx):
 
 
 def oracle(ctx):
+    _run_phased(ctx)
     checks, descr = _run_histories(ctx, ctx.scale(40, 400))
     if ctx.stats.get("histories_skipped_no_inotify_instance"):
         ctx.notes.append(f"{ctx.stats['histories_skipped_no_inotify_instance']} histories skipped: no free inotify "
@@ -742,7 +940,13 @@ def search(ctx):
 def replay(ctx, obj):
     w = obj["failure"].get("witness") or {}
     print("replaying", w.get("case"), w.get("ops"))
-    if w.get("sys"):
+    if w.get("phased"):
+        res = D.run(_phased_history(w["project"], w["phases"]), timeout=120)
+        print("diff:", res["diff"])
+        if res["diff"]:
+            ctx.add_failure("oracle", f"rebuild-vs-restart:{w.get('case')}", obj["failure"]["signature"],
+                            f"replayed: {res['diff']!r}", witness=w)
+    elif w.get("sys"):
         from . import c14_sys as S
         from . import e3
         results = S.run_case(e3.Project.from_json(w["project"]), w["phases"], **w.get("build_kwargs", {}))
